@@ -149,9 +149,10 @@ func (s *Store) CrashImage(c *sim.Ctx) *Store {
 		cp := s.mem.Copy()
 		return &Store{mem: cp, kv: cp}
 	}
+	// the clone is opened when a node is opened on it (OpenNode): an open Pebble instance holds its
+	// memtable arena and cache, and a run may keep dozens of images until it evaluates them
 	n := &Store{Pebble: true, path: s.path, TinyCache: s.TinyCache}
 	n.fs = s.fs.CrashClone(vfs.CrashCloneCfg{UnsyncedDataPercent: 0})
-	n.open(c)
 	return n
 }
 
@@ -176,6 +177,9 @@ type Node struct {
 
 func OpenNode(c *sim.Ctx, st *Store, newState bool, name string) *Node {
 	n := &Node{c: c, NewState: newState, St: st, Net: &networks.Sepolia, Name: name}
+	if st.kv == nil && st.Pebble {
+		st.open(c) // a crash image, opened on first use
+	}
 	n.FDB = faultdb.Wrap(st.kv)
 	n.BC = blockchain.New(n.FDB, n.Net, blockchain.WithNewState(newState))
 	return n
